@@ -30,6 +30,8 @@ struct Data {
     s: usize,
     b: bool,
     u: i64,
+    /// bit k set = field k of [x, y, s, b] is absent from this fact
+    absent: u8,
 }
 
 #[derive(Clone, Debug, PartialEq)]
@@ -63,15 +65,28 @@ struct Case {
 }
 
 fn gen_data(s: &mut Src) -> Data {
-    Data { x: s.range(0, 2), y: s.range(0, 2), s: s.below(3), b: s.bool(), u: 0 }
+    let mut d = Data { x: s.range(0, 2), y: s.range(0, 2), s: s.below(3), b: s.bool(), u: 0, absent: 0 };
+    // now and then a fact lacks a field (an update can therefore also DROP a field)
+    if s.chance(1, 4) {
+        d.absent = 1 << s.below(4);
+    }
+    d
 }
 
 fn data_to_typed(d: &Data) -> TypedFacts {
     let mut t = TypedFacts::new();
-    t.set("x", FactValue::Integer(d.x));
-    t.set("y", FactValue::Integer(d.y));
-    t.set("s", FactValue::String(STRS[d.s].to_string()));
-    t.set("b", FactValue::Boolean(d.b));
+    if d.absent & 1 == 0 {
+        t.set("x", FactValue::Integer(d.x));
+    }
+    if d.absent & 2 == 0 {
+        t.set("y", FactValue::Integer(d.y));
+    }
+    if d.absent & 4 == 0 {
+        t.set("s", FactValue::String(STRS[d.s].to_string()));
+    }
+    if d.absent & 8 == 0 {
+        t.set("b", FactValue::Boolean(d.b));
+    }
     t.set("u", FactValue::Integer(d.u));
     t
 }
@@ -132,7 +147,7 @@ fn gen_case(s: &mut Src, exh: u32) -> Case {
         };
         let mut ops = Vec::new();
         for _ in 0..exh {
-            let d = |x: i64| Data { x, y: 0, s: 0, b: false, u: 0 };
+            let d = |x: i64| Data { x, y: 0, s: 0, b: false, u: 0, absent: 0 };
             ops.push(match s.below(8) {
                 0 => Op6::Insert(0, d(0)),
                 1 => Op6::Insert(0, d(1)),
@@ -315,12 +330,69 @@ fn ref_on(r: &RRule, contents: &BTreeMap<String, V>) -> T3 {
     eval_cond(&r.ast.cond, &st)
 }
 
+/// The same condition under the other reading of an absent field: an atom that reads a field the fact does not
+/// carry is false (what the RETE evaluator does), instead of comparing with null (what the documentation says for
+/// the forward engine). The statement does not pick one for this engine, so a firing is only called unsound when
+/// the condition is false under BOTH readings, and a firing is only owed when it is true under both.
+fn ref_on_absent_false(r: &RRule, contents: &BTreeMap<String, V>) -> T3 {
+    fn reads_absent(a: &Atom, ty: &str, contents: &BTreeMap<String, V>) -> Option<bool> {
+        let missing = |p: &String| p.strip_prefix(&format!("{}.", ty)).map(|f| !contents.contains_key(f)).unwrap_or(true);
+        let op_missing = |o: &Operand| matches!(o, Operand::Field(p) if missing(p));
+        let lhs = match &a.lhs {
+            Lhs::Field(p) => missing(p),
+            Lhs::Arith(x) => op_missing(&x.first) || x.rest.iter().any(|(_, o)| op_missing(o)),
+        };
+        let rhs = match &a.rhs {
+            Term::Field(p) => missing(p),
+            Term::Arith(x) => op_missing(&x.first) || x.rest.iter().any(|(_, o)| op_missing(o)),
+            Term::Lit(_) => false,
+        };
+        if rhs && !lhs {
+            // a right-hand field reference that is absent: the RETE evaluator compares with the reference's own
+            // text as a string - a third reading; such an atom is not judged at all
+            return None;
+        }
+        Some(lhs)
+    }
+    fn go(c: &Cond, r: &RRule, contents: &BTreeMap<String, V>, st: &Store) -> T3 {
+        match c {
+            Cond::Atom(a) => match reads_absent(a, TYPES[r.ty], contents) {
+                None => T3::Undef("absent-rhs-field"),
+                Some(true) => T3::False,
+                Some(false) => eval_atom(a, st),
+            },
+            Cond::And(a, b) => go(a, r, contents, st).and(go(b, r, contents, st)),
+            Cond::Or(a, b) => go(a, r, contents, st).or(go(b, r, contents, st)),
+            Cond::Not(x, _) => go(x, r, contents, st).not(),
+        }
+    }
+    let mut st = Store::default();
+    st.top.insert(TYPES[r.ty].to_string(), V::Obj(contents.clone()));
+    go(&r.ast.cond, r, contents, &st)
+}
+
+/// (certainly false, certainly true) under the two readings
+fn both_readings(r: &RRule, contents: &BTreeMap<String, V>) -> (bool, bool, bool) {
+    let a = ref_on(r, contents);
+    let b = ref_on_absent_false(r, contents);
+    let undef = matches!(a, T3::Undef(_)) || matches!(b, T3::Undef(_));
+    (a == T3::False && b == T3::False, a == T3::True && b == T3::True, undef)
+}
+
 fn data_map(d: &Data) -> BTreeMap<String, V> {
     let mut m = BTreeMap::new();
-    m.insert("x".into(), V::Int(d.x));
-    m.insert("y".into(), V::Int(d.y));
-    m.insert("s".into(), V::Str(STRS[d.s].into()));
-    m.insert("b".into(), V::Bool(d.b));
+    if d.absent & 1 == 0 {
+        m.insert("x".into(), V::Int(d.x));
+    }
+    if d.absent & 2 == 0 {
+        m.insert("y".into(), V::Int(d.y));
+    }
+    if d.absent & 4 == 0 {
+        m.insert("s".into(), V::Str(STRS[d.s].into()));
+    }
+    if d.absent & 8 == 0 {
+        m.insert("b".into(), V::Bool(d.b));
+    }
     m.insert("u".into(), V::Int(d.u));
     m
 }
@@ -369,7 +441,7 @@ pub fn run(s: &mut Src, ctx: &mut Ctx) -> Verdict {
             }
             Op6::Update(i, d) => {
                 if let Some(f) = facts.get_mut(*i) {
-                    let matched_before = !f.data_known || c.rules.iter().any(|r| r.ty == f.ty && ref_on(r, &data_map(&f.data)) == T3::True);
+                    let matched_before = !f.data_known || c.rules.iter().any(|r| r.ty == f.ty && !both_readings(r, &data_map(&f.data)).0);
                     let r = engine.update(f.handle, data_to_typed(d));
                     if f.live {
                         if r.is_err() {
@@ -443,7 +515,11 @@ pub fn run(s: &mut Src, ctx: &mut Ctx) -> Verdict {
                         // absent there, which the quantifier excludes (all facts of a type carry its fields) → not judged
                         ctx.label("cross-type-activation-not-judged");
                     } else {
-                        match ref_on(r, contents) {
+                        let (surely_false, _surely_true, undef) = both_readings(r, contents);
+                        if contents.len() < 5 {
+                            ctx.label("firing-for-fact-lacking-a-field");
+                        }
+                        match if undef { T3::Undef("x") } else if surely_false { T3::False } else { T3::True } {
                             T3::True => {}
                             T3::False => {
                                 return Verdict::fail(
@@ -475,15 +551,17 @@ pub fn run(s: &mut Src, ctx: &mut Ctx) -> Verdict {
                         let mut sat_new = false;
                         for f in facts.iter().filter(|f| f.live) {
                             if f.ty == r.ty {
-                                match ref_on(r, &data_map(&f.data)) {
-                                    T3::True => {
-                                        sat = true;
-                                        if f.written_at > last_fire_all {
-                                            sat_new = true;
-                                        }
+                                let (surely_false, surely_true, undef) = both_readings(r, &data_map(&f.data));
+                                if undef {
+                                    undefined = true;
+                                } else if surely_true {
+                                    sat = true;
+                                    if f.written_at > last_fire_all {
+                                        sat_new = true;
                                     }
-                                    T3::Undef(_) => undefined = true,
-                                    T3::False => {}
+                                } else if !surely_false {
+                                    // true under one reading of absent fields only: may fire
+                                    sat = true;
                                 }
                             }
                         }
@@ -633,7 +711,7 @@ pub fn property() -> Property {
         level: "exploration",
         rule: "generated: 1-4 single-type rules over 3 fact types (well-typed atoms: int field vs literal/field with == != < <= > >=, string field with == != contains startsWith endsWith, bool field, one arithmetic operator on the left; && || ! to depth 3; salience ties; no-loop; action none / set unrelated field / set a condition field / Retract of the matched fact), converted by the real GrlReteLoader (hook verif_convert_rule) from parsed GRL text (part parser) or identical Rule values (part api), action closures wrapped by a recorder; histories of 4-14 insert/update/retract/fire_all/reset operations over <= 6 facts with a 3-value domain per field; plus exhaustive histories over 2 facts x 1 rule x 2 values. Oracles: O1 every firing's matched handle is live (engine view and API-level model) and REF says the rule's condition is true of exactly the contents the engine presents for that handle; O2 when all rules are no-loop with no actions: every fire_all fires exactly once each armed rule (not fired since the last reset) that a live fact written since the previous fire_all satisfies, may fire an armed rule some live fact satisfies, and fires nothing else; O3 after every operation get / get_by_type / get_all_facts / get_all_handles agree for every handle ever issued, ids increase, retracted handles are rejected by update/retract. Non-trivial: a fact matching some rule is updated or retracted before the next fire_all, or an action modifies/retracts with >= 2 live facts, or rules of different salience fire in one fire_all; distinct by hash of (rules, history).",
         assumptions: vec![
-            "all facts of a type carry all fields (absent fields in the RETE evaluator are outside the statement)".into(),
+            "a fact may lack a field (1 case in 4 lacks one): the two readings of an absent field (compares as null / atom is false) are both accepted - a firing is unsound only if the condition is false under both, owed only if true under both".into(),
             "multi-type joins, exists/forall, accumulate, multi-operator arithmetic are not generated".into(),
         ],
         parts: vec![
